@@ -17,11 +17,16 @@ RULE = ("One real instance with 1..2 AsyncServiceBrowsers on disjoint types (del
         "abandons them, over a virtual horizon of up to 3 h; no other asker on the link. Oracle on the query trace "
         "against the per-host reference cache: start-up schedule, minimum spacing, justification of every refresh "
         "query, and liveness (75 % query and 10 % rescue steps, each at most `delay` late) for every record left to "
-        "expire. Non-trivial = at least one PTR was left to expire or refreshed and at least 5 queries were sent.")
+        "expire. 6 % of the runs create the browsers in the instant the instance is created and deschedule the process "
+        "for 0.5..20 s right then - at a time, or after the k-th loop iteration, i.e. between the steps of the instance's "
+        "own start-up. Non-trivial = at least one PTR was left to expire or refreshed and at least 5 queries were sent.")
 ASSUMPTIONS = [
     "browsers of one instance browse disjoint types, so every query on the trace is attributable to one browser",
     "a record whose 75 % point falls inside a browser's start-up phase is allowed to wait for the first regular pass",
     "bounds carry 2 ms slack for float rounding of ms/s conversions",
+    "a process that was descheduled during the start-up phase: the four start-up queries are still required, each gap "
+    "counted from the pass before it, a pass that fell due during the stall runs at its end; the stalled time does not "
+    "count towards the 15 s after which four queries are demanded",
 ]
 
 TYPES = ["_http._tcp.local.", "_ipp._tcp.local.", "_x-y._udp.local."]
